@@ -351,6 +351,10 @@ static struct upipe *rsink_alloc(struct upipe_mgr *mgr, struct uprobe *uprobe, u
     return upipe;
 }
 
+/* latency announced by the laboratory sinks (27 MHz ticks); the C12 histories
+ * draw it per case, also beyond 32 bits */
+uint64_t lab_sink_latency = 12345;
+
 static void rsink_provide(struct rsink *s, struct urequest *req)
 {
     (void)s;
@@ -371,7 +375,7 @@ static void rsink_provide(struct rsink *s, struct urequest *req)
             break;
         }
         case UREQUEST_UCLOCK: urequest_provide_uclock(req, uclock_use(E.uclock)); break;
-        case UREQUEST_SINK_LATENCY: urequest_provide_sink_latency(req, 12345); break;
+        case UREQUEST_SINK_LATENCY: urequest_provide_sink_latency(req, lab_sink_latency); break;
         default: break;
     }
 }
